@@ -8,7 +8,7 @@
     .proto are non-negative; [st_ok]: every bit array in the peer state has exactly the words its
     bits need (true of NewPeerState, preserved by every handler: C18_state_invariant). *)
 From Coq Require Import List ZArith NArith Bool.
-From Kardia Require Import C18.Model C18.ProofsBits C18.Proofs C18.ProofsNet Generated.C18Facts.
+From Kardia Require Import C18.Model C18.ModelFetcher C18.ProofsBits C18.Proofs C18.ProofsNet C18.ProofsFetcher C18.ProofsFetcherDrop C18.ProofsFetcherEmpty C18.ProofsFetcherGood Generated.C18Facts.
 Import ListNotations.
 Local Open Scope Z_scope.
 
@@ -145,3 +145,102 @@ Theorem C18_hvs_unchecked_fill_refuted :
   hvs_fill_unchecked 1 3 {| hv_round := 2; hv_rounds := [3; 2; 0; 1]; hv_catchup := [(7, [3])] |} = RCrash.
 Proof. exact hvs_unchecked_fill_panics. Qed.
 Print Assumptions C18_hvs_unchecked_fill_refuted.
+
+(** Tx-pool channel, the fetcher behind it.  [fstep k s e] is one iteration of TxFetcher.loop for
+    the event [e] (Notify / Enqueue / Drop / the clock) in state [s]; FCrash = the loop goroutine
+    panics (nobody recovers it: the process dies).
+
+    Over whole histories of announcements, deliveries, peer drops and timer expiries from any
+    number of peers, "alternates are tracked exactly for the hashes being fetched" holds after
+    every event that completes ... *)
+Theorem C18_fetcher_alternates_invariant :
+  IC f0 /\ forall evs s, IC s -> match frun s evs with FOk s' => IC s' | FCrash => True end.
+Proof. exact (conj IC_f0 frun_IC). Qed.
+Print Assumptions C18_fetcher_alternates_invariant.
+
+(** ... and with it scheduleFetches never reaches its panic ("alternate tracker already contains
+    fetching item"), whichever peers and rotation *)
+Theorem C18_fetcher_schedule_no_crash :
+  forall w k s, IC s -> exists s', schedule_fetches w k s = FOk s' /\ IC s'.
+Proof. exact schedule_fetches_IC. Qed.
+Print Assumptions C18_fetcher_schedule_no_crash.
+
+(** Drop(peer) — RemovePeer — completes and leaves nothing marked as being fetched from the peer
+    and no request of it, in every state where the peer's fetches are covered by its request *)
+Theorem C18_fetcher_drop_forgets_peer :
+  forall peer k s, IC s -> covered peer s ->
+    exists s', ev_drop peer k s = FOk s' /\ no_fetch_from peer s' /\ zm_get peer (f_requests s') = None.
+Proof. exact ev_drop_forgets. Qed.
+Print Assumptions C18_fetcher_drop_forgets_peer.
+
+(** ... and so does "every hash marked as being fetched from a peer is listed, not stolen, in a
+    request of that peer that exists" (the fact the delivery path relies on when it marks a
+    delivery as stolen: f.requests[origin].stolen) *)
+Theorem C18_fetcher_invariants :
+  forall evs, match frun f0 evs with FOk s => IC s /\ IA s | FCrash => True end.
+Proof. exact frun_inv. Qed.
+Print Assumptions C18_fetcher_invariants.
+
+(** the delivery loop never dereferences a missing request, and keeps the invariant *)
+Theorem C18_fetcher_delivery_no_missing_request :
+  forall origin direct hashes s, IA s ->
+    exists s', ffold (cleanup_hash origin direct) hashes s = FOk s' /\ IA s'.
+Proof. exact cleanup_loop_IA. Qed.
+Print Assumptions C18_fetcher_delivery_no_missing_request.
+
+(** PARTIAL no-crash statement for the fetcher: at every state reachable from the empty fetcher by
+    any history of events, scheduling completes, the delivery loop of any delivery completes, and
+    the drop of any peer completes and forgets the peer.  Not excluded by proof: the three
+    "tracker already contains ..." panics of the wait trigger, the timeout trigger and a partial
+    direct delivery (they need the stage-disjointness part of [fetcher_ok], which is evaluated on
+    every state the model reaches and checked on the implementation's trackers by the harness) *)
+Theorem C18_fetcher_reachable_safe_partial :
+  forall evs s, frun f0 evs = FOk s ->
+    (forall w k, exists s', schedule_fetches w k s = FOk s') /\
+    (forall origin direct hashes, exists s', ffold (cleanup_hash origin direct) hashes s = FOk s') /\
+    (forall peer k, exists s', ev_drop peer k s = FOk s' /\ no_fetch_from peer s' /\ zm_get peer (f_requests s') = None).
+Proof. exact reachable_safe. Qed.
+Print Assumptions C18_fetcher_reachable_safe_partial.
+
+(** seeded breakage a2, computed: with the mark left behind by a Drop that forgets only the
+    request, the next delivery of the transaction by anybody panics *)
+Theorem C18_fetcher_stale_fetching_refuted :
+  match s_requested with
+  | FOk s => fstep 0 (stale_after_drop s) (EEnqueue 1 [(7, 0)] false)
+  | FCrash => FOk f0
+  end = FCrash.
+Proof. exact a2_stale_fetching_then_delivery. Qed.
+Print Assumptions C18_fetcher_stale_fetching_refuted.
+
+(** Drop(peer) (repair 95b0505): afterwards the peer is neither a queued origin nor an alternate
+    origin of any hash — in particular not of a hash that is in flight from somebody else, which
+    before the repair was later queued for ever with no peer to ask.  R1/R2: an origin recorded
+    under a hash is a peer recorded as announcing it *)
+Theorem C18_fetcher_drop_no_stale_origin :
+  forall p k s s', R1 s -> R2 s -> ev_drop p k s = FOk s' -> origin_free p s'.
+Proof. exact ev_drop_origin_free. Qed.
+Print Assumptions C18_fetcher_drop_no_stale_origin.
+
+(** when every peer has been dropped, every tracker of the fetcher is empty: nothing a peer has
+    sent outlives its connection, and the drops never panic.  [GOOD]: the indexes of the state
+    agree (the propositional form of [fetcher_ok]'s index part, with IC and IA); it holds of the
+    empty fetcher and is kept by every Drop (ev_drop_good).  PARTIAL in this respect only: that
+    Notify / Enqueue / the timers keep the index part of GOOD is not proved (IC and IA are:
+    C18_fetcher_invariants); it is evaluated on every state the model reaches and on the
+    implementation's trackers after every event *)
+Theorem C18_fetcher_drop_everyone_empties_partial :
+  GOOD f0 /\
+  (forall ps s, GOOD s -> exists s', drop_all ps s = FOk s') /\
+  (forall ps s s', GOOD s -> (forall q, ~ In q (map snd ps) -> clean q s) -> drop_all ps s = FOk s' -> all_empty s').
+Proof. exact (conj good_f0 (conj drop_all_completes drop_everyone_empties)). Qed.
+Print Assumptions C18_fetcher_drop_everyone_empties_partial.
+
+(** GOOD is kept by every event except a direct reply to a request: announcements, broadcast
+    deliveries, peer drops, the wait and the timeout trigger.  PARTIAL: for a direct reply
+    (PooledTransactions answering RequestPooledTransactions) the partial-delivery path also needs
+    the stage-disjointness facts (a hash being fetched is not queued), which are not proved
+    inductive (Open.v item 5) *)
+Theorem C18_fetcher_index_invariant_partial :
+  forall k s e, not_direct e -> GOOD s -> match fstep k s e with FOk s' => GOOD s' | FCrash => True end.
+Proof. exact fstep_GOOD. Qed.
+Print Assumptions C18_fetcher_index_invariant_partial.
